@@ -209,8 +209,13 @@ def monitor_engine_step(version, st):
     if not sv["decoded"]:
         return [("c19:request-undecodable:%s:%s" % (op, sv["error"].split(":")[0]),
                  "%s under KMIP %s: the server-side decoder rejects the request: %s" % (op, version, sv["error"]))]
+    cv = st.get("client_version")
+    if cv is not None and sv.get("header_version") is not None and sv["header_version"] != "%d.%d" % (cv // 10, cv % 10):
+        fails.append(("c19:request-announces-other-version:%s" % op,
+                      "%s sent by a client whose kmip_version is %s announces protocol version %s in its header"
+                      % (op, cv, sv["header_version"])))
     if "engine_error" in sv:
-        return [("c19:harness:engine-error", "%s: %s" % (op, sv["engine_error"]))]
+        return fails + [("c19:harness:engine-error", "%s: %s" % (op, sv["engine_error"]))]
     it = sv["item"]
     if "data_error" in it:
         return [("c19:harness:engine-data", it["data_error"])]
@@ -462,11 +467,38 @@ def new_cov():
             "engine_by_outcome": collections.Counter(), "frames_cases": 0}
 
 
+def with_version_switches(rng, case):
+    """the same conversation by ONE client object whose version is changed through the kmip_version setter every few
+    steps (the identifiers returned so far stay valid: "$k" counts script entries, so the switches are appended to the
+    entries they follow)"""
+    out, k = [], 0
+    vs = [v for v in VERSIONS if v != case["version"]]
+    script = []
+    idx = {}
+    for i, step in enumerate(case["script"]):
+        idx[i] = len(script)
+        script.append(step)
+        if rng.random() < 0.25:
+            script.append(["set_version", {"version": rng.choice(vs + [case["version"]])}])
+
+    def remap(a):
+        if isinstance(a, str) and a.startswith("$") and a[1:].isdigit():
+            return "$%d" % idx[int(a[1:])]
+        if isinstance(a, list):
+            return [remap(x) for x in a]
+        if isinstance(a, dict):
+            return {kk: remap(vv) for kk, vv in a.items()}
+        return a
+    return dict(case, script=[[op, remap(args)] for op, args in script], switches=True)
+
+
 def run_engine_cases(ctx, cov, seed, rounds):
     rng = random.Random("c19-engine-%s" % seed)
     for _ in range(rounds):
         for v in VERSIONS:
             case = G.gen_engine_script(rng, v)
+            if rng.random() < 0.5:
+                case = with_version_switches(rng, case)
             steps, fails = run_any(case)
             for st in steps:
                 cov["engine_steps"] += 1
